@@ -44,7 +44,7 @@ var paintStubs = []string{
 func init() {
 	checks["C19"] = &CheckDef{
 		ID: "C19",
-		Jobs: func(tier string) []*Job {
+		Jobs: func(tier string, p *Program) []*Job {
 			var jobs []*Job
 			maxN := 2
 			if tier == "thorough" {
@@ -93,4 +93,131 @@ func evalStrings(p *Program, fn string) ([]string, error) {
 		}
 	}()
 	return out, err
+}
+
+const shellSetup = ".ZZSetup_Shell"
+
+var pureEmacs = []string{"forward-char", "backward-char", "forward-word", "backward-word", "shell-forward-word",
+	"shell-backward-word", "beginning-of-line", "end-of-line", "previous-screen-line", "next-screen-line",
+	"copy-region-as-kill", "copy-backward-word", "copy-forward-word", "set-mark", "exchange-point-and-mark",
+	"character-search", "character-search-backward", "digit-argument"}
+
+var pureVi = []string{"vi-backward-char", "vi-forward-char", "vi-prev-word", "vi-next-word", "vi-backward-word",
+	"vi-forward-word", "vi-backward-bigword", "vi-forward-bigword", "vi-end-word", "vi-end-bigword", "vi-match",
+	"vi-column", "vi-end-of-line", "vi-back-to-indent", "vi-first-print", "vi-goto-mark", "vi-backward-end-word",
+	"vi-backward-end-bigword", "vi-find-next-char", "vi-find-next-char-skip", "vi-find-prev-char",
+	"vi-find-prev-char-skip", "vi-char-search", "vi-yank-whole-line", "vi-set-mark", "vi-arg-digit",
+	"beginning-of-line", "end-of-line"}
+
+// commands outside every claim: they spawn an external editor / re-read files
+var skipCommands = map[string]string{
+	"edit-and-execute-command":    "spawns the external editor (os/exec)",
+	"edit-command-line":           "spawns the external editor (os/exec)",
+	"vi-edit-and-execute-command": "spawns the external editor (os/exec)",
+	"vi-edit-command-line":        "spawns the external editor (os/exec)",
+}
+
+func stepJob(mode, cmd string, n int, arg, prefix string, pure bool, inv bool) *Job {
+	kv := []string{"mode", mode, "cmd", cmd, "n", itoa(n)}
+	if arg != "" {
+		kv = append(kv, "arg", arg)
+	}
+	if prefix != "" {
+		kv = append(kv, "prefix", prefix)
+	}
+	if pure {
+		kv = append(kv, "pure", "1")
+	}
+	if !inv {
+		kv = append(kv, "inv", "0")
+	}
+	j := mkJob(".ZZ_Step", shellSetup, kv...)
+	j.Stubs = paintStubs
+	j.Reach = []string{"final-wait|returned"}
+	return j
+}
+
+var stepAssumptions = []string{
+	"pre-state = arbitrary buffer of n Unicode scalar values, cursor and mark anywhere in it, installed through Line.Set/Cursor.Set at the first input wait of a real Readline call; other editor components have their post-init values",
+	"the terminal answers every cursor-position query with ESC[1;1R",
+	"painting functions of the display engine are no-ops (their output is not observed): " + strings.Join(paintStubs, ", "),
+	"SIGWINCH goroutine is created but never scheduled",
+}
+
+func init() {
+	checks["C06"] = &CheckDef{
+		ID: "C06",
+		Jobs: func(tier string, p *Program) []*Job {
+			var jobs []*Job
+			ns := []int{0, 1, 2}
+			if tier == "thorough" {
+				ns = []int{0, 1, 2, 3}
+			}
+			for _, n := range ns {
+				for _, cmd := range pureEmacs {
+					for _, arg := range []string{"", "2", "-"} {
+						if n < 2 && arg != "" && tier != "thorough" {
+							continue
+						}
+						jobs = append(jobs, stepJob("emacs", cmd, n, arg, "", true, true))
+					}
+					if n <= 1 || tier == "thorough" {
+						jobs = append(jobs, stepJob("vi-insert", cmd, n, "", "", true, true))
+					}
+				}
+				for _, cmd := range pureVi {
+					for _, arg := range []string{"", "2"} {
+						if n < 2 && arg != "" && tier != "thorough" {
+							continue
+						}
+						jobs = append(jobs, stepJob("vi-command", cmd, n, arg, "", true, true))
+					}
+				}
+			}
+			return jobs
+		},
+		Assumptions: stepAssumptions,
+		Stubs:       []string{"tty ioctls", "stdin = zzverif.Script", "stdout discarded"},
+		Bounds: map[string]string{"quick": "buffer length n <= 2, one command per step, numeric argument in {none, 2, -}",
+			"thorough": "buffer length n <= 3"},
+		Rule:        "one state per completed symbolic path of the step harness (a path = a class of buffers/cursors/marks following the same branches through dispatcher and command)",
+		IgnoreKinds: []string{"panic", "hang", "deadlock", "spin"}, // C01's subject
+	}
+}
+
+func init() {
+	checks["C01"] = &CheckDef{
+		ID: "C01",
+		Jobs: func(tier string, p *Program) []*Job {
+			var jobs []*Job
+			cmds, err := evalStrings(p, ".ZZ_ListCommands")
+			if err != nil {
+				j := mkJob(".ZZ_Step", shellSetup, "error", err.Error())
+				return []*Job{j}
+			}
+			ns := []int{0, 1}
+			if tier == "thorough" {
+				ns = []int{0, 1, 2}
+			}
+			for _, cmd := range cmds {
+				if _, skip := skipCommands[cmd]; skip {
+					continue
+				}
+				for _, mode := range []string{"emacs", "vi-insert", "vi-command"} {
+					for _, n := range ns {
+						jobs = append(jobs, stepJob(mode, cmd, n, "", "", false, false))
+					}
+					if tier == "thorough" {
+						jobs = append(jobs, stepJob(mode, cmd, 2, "2", "", false, false))
+					}
+				}
+			}
+			return jobs
+		},
+		Assumptions: stepAssumptions,
+		Stubs:       []string{"tty ioctls", "stdin = zzverif.Script", "stdout discarded"},
+		Bounds: map[string]string{"quick": "every registered command x {emacs, vi-insert, vi-command}, buffer length n <= 1, one symbolic argument key for key-reading commands",
+			"thorough": "buffer length n <= 2, numeric argument 2"},
+		Rule: "one state per completed symbolic path of the step harness",
+	}
 }
